@@ -324,6 +324,16 @@ theorem C12_deterministic (σ τ : Nat → Nat) (hσ : Function.Injective σ)
     sortModel (renG σ τ g) = (sortModel g).map (renOrders σ τ) :=
   sortModel_ren hσ hτ g
 
+/-- **C12_stateless**: the outcome of a sort depends only on the tree as it is when `sort` is
+    called, not on the history that produced it (earlier sorts, edits, flags): two histories that
+    end in the same tree give the same raise-or-not and the same orders.  Immediate in the model —
+    `sortEffect` takes the current tree as its only argument; that the code has no such hidden
+    state is what the stateful correspondence checks (build, sort, edit the same objects, sort
+    again, each sort compared with the model on the structure of that moment). -/
+theorem C12_stateless {H : Type} (treeAfter : H → MGraph) (h1 h2 : H)
+    (e : treeAfter h1 = treeAfter h2) :
+    sortEffect (treeAfter h1) = sortEffect (treeAfter h2) := by rw [e]
+
 /-! ## non-vacuity -/
 
 /-- `g0 = [n1, n0]`, `n1` uses `n0` and owns the body `g1 = [n2]`, `n2` captures `n0` -/
